@@ -779,3 +779,97 @@ pub proof fn lemma_frag_bits_unfold(bs: Seq<bool>)
         lemma_announced(n, m);
     }
 }
+
+// ===== spec-level round trips: decoder(encoder(v) ++ anything) == v, consuming exactly the encoding (C10, C01) =====
+
+pub proof fn lemma_starts_with_split(bytes: Seq<u8>, pos: int, a: Seq<bool>, b: Seq<bool>)
+    requires starts_with(bytes, pos, a + b), 0 <= pos
+    ensures starts_with(bytes, pos, a), starts_with(bytes, pos + a.len(), b)
+{
+    assert forall|i: int| 0 <= i < a.len() implies #[trigger] bit_at(bytes, pos + i) == a[i] by {
+        assert((a + b)[i] == a[i]);
+    }
+    assert forall|i: int| 0 <= i < b.len() implies #[trigger] bit_at(bytes, pos + a.len() + i) == b[i] by {
+        assert((a + b)[a.len() + i] == b[i]);
+        assert(bit_at(bytes, pos + (a.len() + i)) == (a + b)[a.len() + i]);
+    }
+}
+
+/// 11.5: reading back a constrained whole number
+pub proof fn lemma_rt_cwn(bytes: Seq<u8>, pos: int, limit: int, lb: int, ub: int, v: int)
+    requires lb <= v <= ub, ub - lb <= u64::MAX, 0 <= pos, starts_with(bytes, pos, x691_cwn(lb, ub, v)), pos + x691_cwn(lb, ub, v).len() <= limit
+    ensures dec_cwn(bytes, pos, limit, (ub - lb) as u64) == Some(((v - lb) as u64, pos + x691_cwn(lb, ub, v).len())),
+        x691_cwn(lb, ub, v).len() == width((ub - lb) as u64)
+{
+    let range = (ub - lb) as u64;
+    lemma_width(range);
+    assert(fits((v - lb) as u64, width(range)));
+    lemma_field_val_nbits(bytes, pos, (v - lb) as u64, width(range));
+}
+
+/// 11.9.3.5 - 11.9.3.8: reading back a general length determinant yields the announced length
+pub proof fn lemma_rt_len_general(bytes: Seq<u8>, pos: int, limit: int, n: u64)
+    requires 0 <= pos, starts_with(bytes, pos, x691_len_general(n)), pos + x691_len_general(n).len() <= limit
+    ensures dec_len_general(bytes, pos, limit) == Some((len_announced(n), pos + x691_len_general(n).len()))
+{
+    lemma_pow2_values();
+    if n < 128 {
+        lemma_starts_with_split(bytes, pos, seq![false], nbits(n, 7));
+        assert(bit_at(bytes, pos + 0) == seq![false][0]);
+        assert(fits(n, 7)) by { assert(n >> 7 == 0) by(bit_vector) requires n < 128; }
+        lemma_field_val_nbits(bytes, pos + 1, n, 7);
+    } else if n < 16384 {
+        lemma_starts_with_split(bytes, pos, seq![true, false], nbits(n, 14));
+        assert(bit_at(bytes, pos + 0) == seq![true, false][0]);
+        assert(bit_at(bytes, pos + 1) == seq![true, false][1]);
+        assert(fits(n, 14)) by { assert(n >> 14 == 0) by(bit_vector) requires n < 16384; }
+        lemma_field_val_nbits(bytes, pos + 2, n, 14);
+    } else {
+        let m: u8 = (if n / 16384 >= 4 { 4u64 } else { n / 16384 }) as u8;
+        lemma_announced(n, m);
+        let fb = frag_blocks(n);
+        lemma_starts_with_split(bytes, pos, seq![true, true], nbits(fb, 6));
+        assert(bit_at(bytes, pos + 0) == seq![true, true][0]);
+        assert(bit_at(bytes, pos + 1) == seq![true, true][1]);
+        assert(fits(fb, 6)) by { assert(fb >> 6 == 0) by(bit_vector) requires fb <= 4; }
+        lemma_field_val_nbits(bytes, pos + 2, fb, 6);
+    }
+}
+
+/// 11.7: reading back a semi-constrained offset
+pub proof fn lemma_rt_semi(bytes: Seq<u8>, pos: int, limit: int, n: u64)
+    requires 0 <= pos, starts_with(bytes, pos, x691_semi(n)), pos + x691_semi(n).len() <= limit
+    ensures dec_semi(bytes, pos, limit) == Some((n, pos + x691_semi(n).len()))
+{
+    lemma_min_octets(n);
+    let k = min_octets(n) as u64;
+    lemma_starts_with_split(bytes, pos, x691_len_short(k), nbits(n, 8 * min_octets(n)));
+    assert(x691_len_general(k) == x691_len_short(k));
+    lemma_rt_len_general(bytes, pos, limit, k);
+    lemma_field_val_nbits(bytes, pos + x691_len_short(k).len(), n, 8 * min_octets(n));
+}
+
+/// 11.6: reading back a normally small non-negative whole number
+pub proof fn lemma_rt_nsnnwn(bytes: Seq<u8>, pos: int, limit: int, n: u64)
+    requires 0 <= pos, starts_with(bytes, pos, x691_nsnnwn(n)), pos + x691_nsnnwn(n).len() <= limit
+    ensures dec_nsnnwn(bytes, pos, limit) == Some((n, pos + x691_nsnnwn(n).len()))
+{
+    if n < 64 {
+        lemma_starts_with_split(bytes, pos, seq![false], nbits(n, 6));
+        assert(bit_at(bytes, pos + 0) == seq![false][0]);
+        assert(fits(n, 6)) by { assert(n >> 6 == 0) by(bit_vector) requires n < 64; }
+        lemma_field_val_nbits(bytes, pos + 1, n, 6);
+    } else {
+        lemma_starts_with_split(bytes, pos, seq![true], x691_semi(n));
+        assert(bit_at(bytes, pos + 0) == seq![true][0]);
+        lemma_rt_semi(bytes, pos + 1, limit, n);
+    }
+}
+
+/// what a writer appended is what a reader positioned at the old cursor finds
+pub proof fn lemma_appended_starts_with(b0: Seq<u8>, p0: int, b1: Seq<u8>, p1: int, bs: Seq<bool>)
+    requires appended(b0, p0, b1, p1, bs), 0 <= p0
+    ensures starts_with(b1, p0, bs)
+{
+    assert forall|i: int| 0 <= i < bs.len() implies #[trigger] bit_at(b1, p0 + i) == bs[i] by { }
+}
